@@ -3,6 +3,11 @@
 #   copy /repo to a scratch dir, apply, run the pinned baseline packages (must pass),
 #   run ./check <PROP> quick against the copy (must report VIOLATION), delete the copy.
 cd "$(dirname "$0")/.."
+# run from a private snapshot of /verif so that concurrent edits cannot break a running self-test
+SNAP=$(mktemp -d /tmp/verif-snap-XXXXXX)
+rsync -a --exclude .git --exclude replays --exclude evidence --exclude wip ./ "$SNAP/"
+cd "$SNAP"
+trap 'rm -rf "$SNAP"' EXIT
 export GOFLAGS=-mod=mod GOPROXY=off GOSUMDB=off GOTOOLCHAIN=local
 PAT=${1:-}
 TIER=${SELFTEST_TIER:-quick}
